@@ -10,7 +10,10 @@ INNERS = [('literal', '"a"', ''), ('rule', 'X', ''), ('regex', '/[ab]/', ''), ('
           ('choice', '("zz" | X)', ''), ('inline-read', '[`q`]', 'let q = /[ab]/ in '),
           ('count-read', '"a"{n}', 'let n = `1` in '),
           ('empty-literal', '""', ''), ('case-insensitive-literal', '"A"i', ''), ('lookahead', 'Expect("a") >> "a"', ''),
-          ('repetition', '"a"+', ''), ('separated', '("a" // "b")', ''), ('fail', 'Fail()', '')]
+          ('repetition', '"a"+', ''),
+          # a let that re-binds a name of the enclosing scope (it saves and restores the outer value)
+          ('shadowing-let', '(let q = /[ab]/ in `q`)', 'let q = /[ab]/ in '),
+          ('shadowing-let-of-parameter', '[(let x = /[ab]/ in `x`), x]', 'TEMPLATE'), ('separated', '("a" // "b")', ''), ('fail', 'Fail()', '')]
 # bytes mode: every literal kind of a binary grammar
 BPRELUDE = 'X = b"a" | b"b"\nPair(x) = [x, x]\nclass K { v: b/[ab]/ }\n'
 BINNERS = [('byte', '0x61', ''), ('bytes-literal', 'b"a"', ''), ('bytes-regex', 'b/[ab]/', ''), ('bytes-rule', 'X', ''),
